@@ -123,6 +123,11 @@ impl<H: Hasher> BatchMerkleProof<H> {
             return Err(MerkleTreeError::TooManyLeafIndexes(MAX_PATHS, indexes.len()));
         }
 
+        // the proof must contain exactly one leaf per index
+        if indexes.len() != self.leaves.len() {
+            return Err(MerkleTreeError::InvalidProof);
+        }
+
         let mut buf = [H::Digest::default(); 2];
         let mut v = BTreeMap::new();
 
@@ -239,6 +244,11 @@ impl<H: Hasher> BatchMerkleProof<H> {
                 i += 1;
             }
         }
+        // all nodes of the proof must have been consumed on the way up
+        if proof_pointers.iter().zip(self.nodes.iter()).any(|(&p, nodes)| p != nodes.len()) {
+            return Err(MerkleTreeError::InvalidProof);
+        }
+
         v.remove(&1).ok_or(MerkleTreeError::InvalidProof)
     }
 
